@@ -22,7 +22,7 @@ Definition finalizer_body_mapof : string := "{ close(m.stop) }".
 (* ---- call budgets of the cache methods (translator: harness/srcfacts/skeleton.go) ---- *)
 Inductive stok := TLoad | TStore | TCompute | TLoadAndDelete | TDelete | TClear | TSize | TSnapshot
   | TNow | TDflt | TWDflt | TCb | TWCb | TFire | TUserFn
-  | TLoadOrStore | TLoadAndStore | TLoadOrCompute | TUnknown.
+  | TLoadOrStore | TLoadAndStore | TLoadOrCompute | TUnknown | TFireLocked.
 
 (* xsync_map.go: call budgets of the methods of xsyncMap (see harness/srcfacts/skeleton.go) *)
 Definition budgets_map : list (string * (list (stok * option nat) * nat)) := [
